@@ -9,14 +9,21 @@ CONSTANTS Keys, KSz, VSizes, Limit,
           DigMode,     \* "spread": distinct first-level digests; "clustered": tiny alphabets per level
           Persist,     \* sprinkle commit / drop cache / crash events
           AllowPop,    \* bulk pops in the churn phase
-          GrowUntil, ShrinkFrom, EmitDepth
+          GrowUntil, ShrinkFrom, EmitDepth,
+          FanFrom      \* print the history at every length FanFrom..EmitDepth: TLC evaluates the printing invariant on EVERY candidate
+                       \* successor, so this yields the complete one-step closure of each state the walk passes through in that window
 
 VARIABLES dict, nextId, hist, cdict, hasc
 wvars == <<dict, nextId, hist, cdict, hasc>>
 
 Spread(k)    == <<(k * 37) % 1009, (k * 11) % 7, k % 3, k % 2>>
 Clustered(k) == <<k % 3, (k \div 3) % 2, (k \div 6) % 2, (k \div 12) % 2>>
-Dig(k) == IF DigMode = "spread" THEN Spread(k) ELSE Clustered(k)
+\* "paired": keys 2j and 2j+1 share the first-level digest and differ at the second level (collision groups of exactly two)
+Paired(k)    == <<((k \div 2) * 37) % 1009, k % 2, k % 3, k % 2>>
+\* "mixed": one key in three belongs to such a pair, the others have first-level digests of their own (many slabs AND collision groups)
+Mixed(k)     == IF k % 6 < 2 THEN <<2 * (k - (k % 6)) + 1, k % 6, 0, 0>> ELSE <<2 * k, 0, 0, 0>>
+Dig(k) == IF DigMode = "spread" THEN Spread(k) ELSE IF DigMode = "paired" THEN Paired(k)
+          ELSE IF DigMode = "mixed" THEN Mixed(k) ELSE Clustered(k)
 KeysSeq == [k \in 1..Cardinality(Keys) |-> Dig(k)]
 
 Init == dict = <<>> /\ nextId = 1 /\ hist = << <<"dig">> \o KeysSeq >> /\ cdict = <<>> /\ hasc = FALSE
@@ -39,7 +46,14 @@ DropCache == Persist /\ UNCHANGED <<dict, nextId, cdict, hasc>> /\ hist' = Appen
 Crash == Persist /\ ~Growing /\ hasc /\ dict' = cdict /\ UNCHANGED <<nextId, cdict, hasc>> /\ hist' = Append(hist, <<"crash">>)
 PopAll == AllowPop /\ Len(dict) > 0 /\ Len(hist) % 11 = 0 /\ dict' = <<>> /\ UNCHANGED <<nextId, cdict, hasc>> /\ hist' = Append(hist, <<"mpop">>)
 Present == {k \in Keys : HasKey(dict, k)}
-Next == \/ ~Shrinking /\ \E k \in Keys, v \in VSizes : SetK(k, v)
+\* Inside a fan window every insert, overwrite and removal is ONE action (a single existential over a state-dependent set), because
+\* TLC's simulator first picks an action and then generates the successors of that action only: this way all candidates are generated
+\* (and printed by EmitWalk) at every step of the window.
+InFan == FanFrom < EmitDepth /\ Len(hist) > FanFrom
+FanNext == \E c \in ({"s"} \X Keys \X VSizes) \cup ({"r"} \X Present \X {0}) :
+             IF c[1] = "s" THEN SetK(c[2], c[3]) ELSE RemoveK(c[2])
+Next == IF InFan THEN FanNext ELSE
+        \/ ~Shrinking /\ \E k \in Keys, v \in VSizes : SetK(k, v)
         \/ Growing /\ \E k \in Keys \ Present, v \in VSizes : SetK(k, v)       \* bias towards new keys
         \/ Shrinking /\ \E k \in Present, v \in VSizes : SetK(k, v)
         \/ Shrinking /\ Present = {} /\ \E k \in Keys, v \in VSizes : SetK(k, v)   \* never deadlock before EmitDepth
@@ -47,5 +61,5 @@ Next == \/ ~Shrinking /\ \E k \in Keys, v \in VSizes : SetK(k, v)
         \/ ~Growing /\ ~Shrinking /\ \E k \in Keys : GetK(k) \/ HasK(k)
 NextP == Next \/ (~Growing /\ ~Shrinking /\ PopAll) \/ (\E md \in {"det", "nondet"}, w \in {1, 4} : Commit(md, w)) \/ DropCache \/ Crash
 Spec == Init /\ [][NextP]_wvars
-EmitWalk == (EmitDepth > 0 /\ Len(hist) = EmitDepth + 1) => PrintT(ToJson(hist))
+EmitWalk == (EmitDepth > 0 /\ Len(hist) >= FanFrom + 1 /\ Len(hist) <= EmitDepth + 1) => PrintT(ToJson(hist))
 =============================================================================
